@@ -89,6 +89,16 @@ def _run(ctx, pid, thorough, rng, exe, tmp):
                 n, t2, d = g.typed_uplink(rng, s, ty, variant=mode)
                 s.up(n, t2, d)
             s.flush(); sessions.append(s.end())
+    # queue bound (C06): fill levels around 128 without reading, then single reads and a drain
+    if pid == "C06":
+        for fill in ((126, 130) if not thorough else (1, 127, 128, 129, 200)):
+            s = g.Session("fill%d" % fill, track_mc.MC_CFG, os.path.join(tmp, "fill%d" % fill), paths=dict(track_mc.MC_PATHS), full=False)
+            for i in range(fill):
+                s.up([1], 0x82, [i & 255, i >> 8], drain=False)
+                if i % 3 == 0: s.up([], 0x86, [1, i & 255], drain=False)       # error queue, a third as fast
+            for _ in range(3): s.read("msg"); s.read("err")
+            s.up([1], 0x95, [7, 7], drain=False); s.read("msg"); s.drain(); s.read("msg"); s.read("err")
+            s.flush(); sessions.append(s.end())
     # field-value sweeps of the conversions (C07): every current / voltage code
     if pid == "C07":
         s = g.Session("sweep", track_mc.MC_CFG, os.path.join(tmp, "sweep"), paths=dict(track_mc.MC_PATHS), full=True)
